@@ -99,3 +99,13 @@ func init() {
 		Rule: "case = one concurrent run of the real core (scheduling loop, three event handlers, proxy, quota preemption loop, health checker every 50 ms, timers) under -race and go-deadlock order detection with 3-6 client goroutines, confirmer, reloader (two configurations alternating), node updater, 3 REST readers; seeded lock-acquire yields (0-25%); GOMAXPROCS 2/4/8/16; then settle and evaluate the quiescent-state oracles; non-trivial = more than 100 client operations and 200 trace events; distinct by sha256 of the per-key callback sequence (distinct interleavings seen by the shim)",
 		Assumptions: []string{"the race detector and go-deadlock are trusted for what they report; only interleavings that were executed are judged", "legal SI traffic only (C13 owns hostile input)", "REST handler panics (net/http recovers them per request) are counted as diagnostics, no property covers them"}})
 }
+
+func init() {
+	driver.Register(&driver.Spec{Prop: "C13", Quick: 800, Thorough: 16000, Batch: 25, TimeoutPerBatch: 6 * time.Minute,
+		Run: func(prop string, seed uint64, idx int, tier string, replayDir string, cmdLog *os.File) *det.CaseResult {
+			return det.RunHostileCase(seed, replayDir, cmdLog)
+		},
+		Rule: "case = a seeded legal history prefix (5-60 operations) that leaves the core in some reachable state, then 15-30 messages from the hostile generator (24 classes over the SI Go structs: unknown/duplicate/empty/very long/unicode ids, unset sub-messages, zero/negative/MinInt64 quantities, every termination type and node action incl. out-of-range values, placeholder without task group, foreign tags with junk, releases of things that do not exist), each logged to disk before it is sent, in a child process; non-trivial = at least 5 hostile messages were judged; distinct by sha256 of the hostile messages",
+		Assumptions: []string{"no nil list elements and no nil map values (excluded by the property)", "a worker process that dies is a violation (the command log names the message), a barrier that does not return within 30 s is a hang"}})
+	driver.CrashHandler["C13"] = det.HostileCrash
+}
